@@ -10,6 +10,20 @@ TB = ("Trusted base: go/types+go/ssa (x/tools v0.29.0) front end, the govc VC ge
 
 HALF = 'Build-time half only: what the templates emit from the compiled Output and what the runtime library does with it are outside the technique (no verifier for text/template; the runtime is an external module). '
 CLAIMS = {
+ "C05": dict(
+   technique="contract-based deductive verification: contracts on the real scope conversion and shared-on-contextual validator over go/ssa with a ghost edge relation for the library graph, SMT",
+   text=("Proof that the scope keyword tables map exactly shared/contextual/non_shared to their constants (global invariant proved for init), that Scope.UnmarshalYAML accepts only keyword values, "
+         "that processScopes gives every compiled service the image of the declared scope of the service with the same name (unset -> default) and changes nothing else, "
+         "that BuildDependencyGraph hands the library exactly the edges of the dependency relation (both directions), and that ValidateServicesScopes returns nil exactly when no service declared shared reaches a service declared contextual in that graph."),
+   note=(HALF + "Instance identity across Get calls and the mapping of output.Scope to runtime setters are template/runtime. The library graph is modelled by a ghost edge relation with assumed contracts for AddService/…DependsOn…/Deps (A11: Deps(id) returns exactly the nodes reachable from service id; reach is transitive and contains edges, but minimality of reachability is not axiomatised). Error texts naming both services are opaque. " + TB),
+   design="DESIGN.md section 4 C05"),
+ "C07": dict(
+   technique="contract-based deductive verification: graph-exactness contract (ghost edge relation, set-valued specification functions) on the real BuildDependencyGraph over go/ssa, SMT",
+   text=("Proof, for all Outputs of any size, that the graph handed to the cycle finder has exactly the edges of the dependency relation of the property: service -> each referenced service, parameter and tag (through arguments, calls, fields via AllArgs, itself proved sound and complete), "
+         "tag -> each service carrying it, service -> the decoration node of each of its tags, decoration node -> each decorator on that tag, decorator -> everything its arguments reference, parameter -> each referenced parameter; every such edge is present and no other. "
+         "ValidateCircularDeps returns nil iff the library reports that graph acyclic."),
+   note=("The cycle enumeration itself (gonum topo.DirectedCyclesIn through the helpers' graph package) is an assumed contract: CircularDeps() is empty iff the edge relation is acyclic (A11). Contracting the intermediate tag/decoration nodes preserves (a)cyclicity (M3, stated not machine-checked). The custody chain from YAML text to the DependsOn* lists is C02/C03/C06. " + TB),
+   design="DESIGN.md section 4 C07"),
  "C02": dict(
    technique="contract-based deductive verification: contracts on the real resolver chain and service compilation steps over go/ssa, SMT (strings, regex captures, arrays)",
    text=("Proof that the compiled Output is a faithful, order-preserving image of each declared service: ArgResolver returns what the first supporting strategy returns and only asks strategies that support the argument; "
